@@ -69,6 +69,19 @@ def nan_aware(prog: dict) -> bool:
     return True
 
 
+def nan_into_minmax_reduction(prog: dict, values: list) -> bool:
+    """NumPy's amax / amin propagate NaN, loopy's max / min reductions (fmax-like)
+    ignore it: does a NaN reach the operand of such a reduction in this run?"""
+    for c in prog["calls"]:
+        if c["op"] in ("amax", "amin") and rp.is_ref(c.get("a")):
+            v = values[c["a"] - 1] if c["a"] - 1 < len(values) else None
+            if v is not None:
+                a = np.asarray(v)
+                if a.dtype.kind in "fc" and a.size and bool(np.isnan(a).any()):
+                    return True
+    return False
+
+
 def numpy_reference(prog: dict, data: dict[str, np.ndarray]) -> tuple[dict | None, list]:
     """-> (name -> ndarray, values of every call) or (None, ...) if NumPy rejects"""
     nb = rp.NpBackend(data)
